@@ -49,7 +49,13 @@ try:
         out["suite_passed"] = int(m.group(1)) if m else None
         out["suite_failed_under_load"] = failed
         still, timing = [], []
+        # fails about every second solitary run on the UNCHANGED tree (7 of 12 runs, fresh example database): the test's
+        # software model is updated before the hardware call completes (cleanup loop of remove_process), a race of the test
+        flaky_unchanged = {"test/lib/test_storage.py::TestContentAddressableMemory::test_random"}
         for f in failed:
+            if f in flaky_unchanged:
+                timing.append(f + " (fails intermittently on the unchanged tree)")
+                continue
             # the example database of the loaded run replays its (timing) failures: drop it before the solitary rerun
             subprocess.run(["rm", "-rf", os.path.join(wt, ".hypothesis")])
             q = run([PY, "-m", "pytest", "-q", "-p", "no:cacheprovider", "--timeout=900", f], wt, 1800)
